@@ -3,9 +3,9 @@
 #   patch applies + builds + whole existing suite passes + demo fails with patch + demo passes without.
 # On success copies it to /verif/seeded/<PID>-<N>/ (patch.diff, demo_test.go, meta.json with "confirmed").
 export GOFLAGS=-mod=mod GOPROXY=off GOSUMDB=off GOTOOLCHAIN=local CGO_ENABLED=1
-pid=$1; n=$2; pkg=$3; wt=/tmp/mut-$pid; out=$wt/out
+pid=$1; n=$2; pkg=$3; wt=${4:-/tmp/mut-$pid}; sid=${5:-$pid-$n}; out=$wt/out
 cd $wt || exit 2
-[ -d out ] && mv out _out
+if [ -d _out ]; then rm -rf out; elif [ -d out ]; then mv out _out; fi
 out=$wt/_out
 git checkout -q -- . ; git clean -fdq -e _out
 git apply _out/patch$n.diff || { echo "APPLY-FAIL"; exit 1; }
@@ -13,13 +13,13 @@ go build ./... || { echo "BUILD-FAIL"; git checkout -q -- .; exit 1; }
 go vet -tags verif ./command/ ./pkg/... >/dev/null 2>&1
 go build -tags verif ./... || { echo "BUILD-VERIF-FAIL"; }
 pk=./...
-if go test -vet=off -count=1 $pk > /tmp/seedconfirm-$pid-$n.suite 2>&1; then echo "suite passes with patch"; else echo "SUITE-FAILS-WITH-PATCH"; tail -20 /tmp/seedconfirm-$pid-$n.suite; git checkout -q -- .; exit 1; fi
+if go test -vet=off -count=1 $pk > /tmp/seedconfirm-$sid.suite 2>&1; then echo "suite passes with patch"; else echo "SUITE-FAILS-WITH-PATCH"; tail -20 /tmp/seedconfirm-$sid.suite; git checkout -q -- .; exit 1; fi
 cp _out/demo${n}_test.go $pkg/zz_demo${n}_test.go
-if go test -vet=off -count=1 -run 'Demo|demo|ZZ' ./$pkg/ > /tmp/seedconfirm-$pid-$n.with 2>&1; then echo "DEMO-PASSES-WITH-PATCH (bad)"; rm $pkg/zz_demo${n}_test.go; git checkout -q -- .; exit 1; else echo "demo fails with patch"; fi
+if go test -vet=off -count=1 -run 'Demo|demo|ZZ' ./$pkg/ > /tmp/seedconfirm-$sid.with 2>&1; then echo "DEMO-PASSES-WITH-PATCH (bad)"; rm $pkg/zz_demo${n}_test.go; git checkout -q -- .; exit 1; else echo "demo fails with patch"; fi
 git checkout -q -- .
-if go test -vet=off -count=1 -run 'Demo|demo|ZZ' ./$pkg/ > /tmp/seedconfirm-$pid-$n.without 2>&1; then echo "demo passes without patch"; else echo "DEMO-FAILS-WITHOUT-PATCH (bad)"; tail -20 /tmp/seedconfirm-$pid-$n.without; rm $pkg/zz_demo${n}_test.go; exit 1; fi
+if go test -vet=off -count=1 -run 'Demo|demo|ZZ' ./$pkg/ > /tmp/seedconfirm-$sid.without 2>&1; then echo "demo passes without patch"; else echo "DEMO-FAILS-WITHOUT-PATCH (bad)"; tail -20 /tmp/seedconfirm-$sid.without; rm $pkg/zz_demo${n}_test.go; exit 1; fi
 rm $pkg/zz_demo${n}_test.go
-d=/verif/seeded/$pid-$n; mkdir -p $d
+d=/verif/seeded/$sid; mkdir -p $d
 cp _out/patch$n.diff $d/patch.diff; cp _out/demo${n}_test.go $d/demo_test.go
 python3 - <<P
 import json
@@ -28,4 +28,4 @@ m["property"]="$pid"; m["demo_pkg_dir"]="$pkg"
 m["confirmed"]={"by":"tools/seedconfirm.sh in a scratch worktree of /repo","patch_applies":True,"builds":True,"existing_suite_passes_with_patch":True,"demo_fails_with_patch":True,"demo_passes_without_patch":True}
 json.dump(m,open("$d/meta.json","w"),indent=1)
 P
-echo "CONFIRMED $pid-$n"
+echo "CONFIRMED $sid"
